@@ -12,11 +12,11 @@ log=$dst/confirm.log; : > $log
 ninja -C _b SvtAv1ApiTests SvtAv1EncApp SvtAv1DecApp >> $log 2>&1 || { echo "BUILD FAILED with change"; exit 1; }
 timeout 600 Bin/Release/SvtAv1ApiTests 2>/dev/null | grep -E "^\[       OK|^\[  FAILED" | sed 's/ (.*//' | sort -u > /tmp/api_with_$id.txt
 ( timeout 900 bash MUTATION/demo.sh $wt >> $log 2>&1 ); with=$?
-git stash -q
+git apply -R $dst/patch.diff   # (no git stash: the stash is shared by all worktrees of the repository)
 ninja -C _b SvtAv1ApiTests SvtAv1EncApp SvtAv1DecApp >> $log 2>&1
 timeout 600 Bin/Release/SvtAv1ApiTests 2>/dev/null | grep -E "^\[       OK|^\[  FAILED" | sed 's/ (.*//' | sort -u > /tmp/api_without_$id.txt
 ( timeout 900 bash MUTATION/demo.sh $wt >> $log 2>&1 ); without=$?
-git stash pop -q
+git apply $dst/patch.diff
 same=no; cmp -s /tmp/api_with_$id.txt /tmp/api_without_$id.txt && same=yes
 nok=$(grep -c "OK" /tmp/api_with_$id.txt)
 echo "demo_with_change_exit=$with demo_without_change_exit=$without api_lists_identical=$same api_ok_with_change=$nok"
